@@ -509,7 +509,7 @@ func concScenario(param string) vsched.Scenario {
 func main() {
 	vrand.Hook = func(n int) int { return 0 }
 	harness.Register("concurrent", concScenario)
-	workDir, _ = os.MkdirTemp("", "c08")
+	workDir = harness.TempDir("c08")
 	defer os.RemoveAll(workDir)
 	if s := os.Getenv("C08_SHARD"); s != "" {
 		var mode string
